@@ -43,6 +43,67 @@ def wiringOf (k : SupKind) (cfg : SupConfig) (numClasses : Nat) : Generator :=
   | .rca => .chunks cfg.nChunks cfg.chunkSize
   | .scml => .knnTriplets cfg.kGenuine cfg.kImpostor
 
+/-! ## the wiring as the translator reads it off the source -/
+
+/-- one row of the generated table `MLGen.supWiring` (translate/supwiring.py) -/
+structure SupWiringRow where
+  cls : String
+  generator : String          -- the `Constraints` method called (exactly one per `fit`)
+  labelsArg : String          -- what `Constraints(·)` is built from
+  prepared : Bool             -- the first statement is `X, y = self._prepare_inputs(X, y, …)`
+  args : List String          -- the generator's arguments (positional, then keywords sorted), `random_state` / `same_length` split off
+  sameLength : Bool
+  seed : String               -- the `random_state=` argument ("" if none)
+  defaultCoef : Nat           -- `n_constraints = coef * num_classes ** pow` when `None` (0, 0 when absent)
+  defaultPow : Nat
+  former : String             -- how the tuples are formed from `X`
+  baseCall : String           -- the base fit that receives them
+  baseArgs : List String
+  baseKwargs : List String
+  assigned : List String      -- every local name the method binds (a re-bound argument would show here)
+deriving DecidableEq, Repr
+
+/-- what the documentation of the six supervised estimators prescribes -/
+def expectedSupWiring : List SupWiringRow :=
+  let pairsRow (cls base : String) : SupWiringRow :=
+    { cls := cls, generator := "positive_negative_pairs", labelsArg := "y", prepared := true, args := ["n_constraints"],
+      sameLength := false, seed := "self.random_state", defaultCoef := 20, defaultPow := 2, former := "wrap_pairs",
+      baseCall := base, baseArgs := ["self", "pairs", "y"], baseKwargs := [],
+      assigned := ["X", "c", "n_constraints", "num_classes", "pairs", "pos_neg", "y"] }
+  [ { pairsRow "ITML_Supervised" "_BaseITML._fit" with baseKwargs := ["bounds=bounds"] },
+    pairsRow "MMC_Supervised" "_BaseMMC._fit",
+    pairsRow "SDML_Supervised" "_BaseSDML._fit",
+    { cls := "LSML_Supervised", generator := "positive_negative_pairs", labelsArg := "y", prepared := true, args := ["n_constraints"],
+      sameLength := true, seed := "self.random_state", defaultCoef := 20, defaultPow := 2, former := "column_stack",
+      baseCall := "_BaseLSML._fit", baseArgs := ["self", "X[np.column_stack(pos_neg)]"], baseKwargs := ["weights=self.weights"],
+      assigned := ["X", "c", "n_constraints", "num_classes", "pos_neg", "y"] },
+    { cls := "RCA_Supervised", generator := "chunks", labelsArg := "y", prepared := true,
+      args := ["chunk_size=self.chunk_size", "n_chunks=self.n_chunks"], sameLength := false, seed := "self.random_state",
+      defaultCoef := 0, defaultPow := 0, former := "chunks", baseCall := "RCA.fit", baseArgs := ["self", "X", "chunks"],
+      baseKwargs := [], assigned := ["X", "chunks", "y"] },
+    { cls := "SCML_Supervised", generator := "generate_knntriplets", labelsArg := "y", prepared := true,
+      args := ["X", "self.k_genuine", "self.k_impostor"], sameLength := false, seed := "",
+      defaultCoef := 0, defaultPow := 0, former := "index", baseCall := "self._fit", baseArgs := ["triplets", "basis", "n_basis"],
+      baseKwargs := [], assigned := ["X", "basis", "constraints", "n_basis", "triplets", "y"] } ]
+
+def SupKind.className : SupKind → String
+  | .itml => "ITML_Supervised" | .mmc => "MMC_Supervised" | .sdml => "SDML_Supervised"
+  | .lsml => "LSML_Supervised" | .rca => "RCA_Supervised" | .scml => "SCML_Supervised"
+
+/-- the generator call a table row denotes, for a configuration and a number of classes -/
+def rowGenerator (r : SupWiringRow) (cfg : SupConfig) (numClasses : Nat) : Option Generator :=
+  if r.generator == "positive_negative_pairs" && r.args == ["n_constraints"] then
+    some (.pairs (match cfg.nConstraints with
+                  | some n => n
+                  | none => r.defaultCoef * numClasses ^ r.defaultPow) r.sameLength)
+  else if r.generator == "chunks" && r.args == ["chunk_size=self.chunk_size", "n_chunks=self.n_chunks"] then
+    some (.chunks cfg.nChunks cfg.chunkSize)
+  else if r.generator == "generate_knntriplets" && r.args == ["X", "self.k_genuine", "self.k_impostor"] then
+    some (.knnTriplets cfg.kGenuine cfg.kImpostor)
+  else none
+
+def findSupRow (tbl : List SupWiringRow) (k : SupKind) : Option SupWiringRow := tbl.find? fun r => r.cls == k.className
+
 /-- forming tuples from index tuples: `X[indices]` -/
 def gather {α : Type} (X : Nat → α) (idx : List (List Nat)) : List (List α) := idx.map (·.map X)
 
